@@ -51,6 +51,14 @@ class Mapping2:
 class ListSub(list):
     pass
 
+
+class Idx:
+    def __init__(self, v):
+        self.v = v
+
+    def __index__(self):
+        return self.v
+
 '''
 
 CTYPES = {
@@ -320,6 +328,32 @@ class G:
         return "\n".join(lines), cases
 
 
+def enum_start_loop(g):
+    """for e, kk in enumerate(x, s) with int / bool / __index__ / non-int start objects and empty or non-empty
+    iterables (CPython validates the start when enumerate() is called, also for an empty iterable)"""
+    r = g.r
+    kind = g.pick(["list", "tuple", "str", "dict", "set", "range", "gen"])
+    typed = g.chance(0.5) and kind in ("list", "tuple", "str", "dict", "set")
+    g.feats.add("enumerate-start:%s%s" % (kind, ":typed" if typed else ""))
+    ann = "x: %s" % kind if typed else "x"
+    it = {"range": "range(x)", "gen": "(z for z in x)"}.get(kind, "x")
+    lines = ["def f_%s(%s, s):" % (g.uid, ann), "    n = 0", "    e = kk = 'init'",
+             "    for e, kk in enumerate(%s, s):" % it, "        LOG.append((e, kk))", "        n += 1"]
+    if g.chance(0.5):
+        g.feats.add("loop-else")
+        lines += ["    else:", "        LOG.append('else')"]
+    lines += ["    return (n, e, kk)"]
+    conts = {"list": ["[]", "[1, 2]", "['a']"], "tuple": ["()", "(1, 2)"], "str": ["''", "'ab'"], "dict": ["{}", "{'a': 1}"],
+             "set": ["set()", "{1}"], "range": ["0", "2"], "gen": ["[]", "[1, 2]"]}[kind]
+    starts = ["0", "5", "-3", "2**31 - 1", "2**63 - 1", "2**70", "True", "M.Idx(4)", "1.5", "'a'", "None", "[1]"]
+    cases = []
+    for c in conts:
+        for st_ in starts:
+            cases.append({"expr": "M.f_%s(%s, %s)" % (g.uid, c, st_),
+                          "cls": "start:" + ("nonint" if st_ in ("1.5", "'a'", "None", "[1]") else "int") + (":empty" if c in ("[]", "()", "''", "{}", "set()", "0") else "")})
+    return "\n".join(lines), cases
+
+
 def _triple_class(a, b, c, lo, hi):
     cl = []
     if c == 0:
@@ -339,10 +373,13 @@ def _triple_class(a, b, c, lo, hi):
 def function_item(draw, uid="UID"):
     rnd = draw(st.randoms(use_true_random=True))
     g = G(rnd, uid)
-    if rnd.random() < 0.55:
+    c = rnd.random()
+    if c < 0.5:
         src, cases = g.range_loop()
-    else:
+    elif c < 0.9:
         src, cases = g.container_loop()
+    else:
+        src, cases = enum_start_loop(g)
     return {"src": src, "cases": cases, "meta": {"features": sorted(g.feats)}}
 
 
